@@ -93,6 +93,32 @@ pub fn extra_command(cmd: &str, args: &[String]) -> bool {
             c08::minimize(&args[2]);
             true
         }
+        "monotone-debug" if args.len() > 2 => {
+            // print geo's own debug!/info! log of the monotone builder for one recorded polygon
+            struct L;
+            impl log::Log for L {
+                fn enabled(&self, _: &log::Metadata) -> bool {
+                    true
+                }
+                fn log(&self, r: &log::Record) {
+                    eprintln!("[{}] {}", r.target().rsplit("::").next().unwrap_or(""), r.args());
+                }
+                fn flush(&self) {}
+            }
+            static LOGGER: L = L;
+            let _ = log::set_logger(&LOGGER);
+            log::set_max_level(log::LevelFilter::Trace);
+            let v: serde_json::Value = serde_json::from_str(&std::fs::read_to_string(&args[2]).unwrap()).unwrap();
+            let a = crate::ig::IG::from_json(&v["a"]).unwrap();
+            let lat = crate::ig::Lat::from_json(&v["lat"]);
+            if let geo::Geometry::Polygon(p) = a.to_geo(&lat) {
+                let r = geo::monotone_subdivision([p]);
+                for m in r {
+                    println!("{:?}", m.into_polygon());
+                }
+            }
+            true
+        }
         "digest-run" => {
             c20::digest_run(args);
             true
